@@ -144,14 +144,36 @@ HARNESS_ENV = {
 }
 
 
-def run_jobs(jobs, deadline=None, nproc=None):
+def run_jobs(jobs, deadline=None, nproc=None, pin=True):
     """jobs: list of argv lists. Runs them in parallel; returns list of (argv, rc, records, stderr_tail).
     Every stdout line that parses as JSON is a record."""
     env = dict(os.environ)
     env.update(HARNESS_ENV)
     nproc = nproc or NCPU
 
+    import queue
+    import shutil
+    cores = queue.Queue()
+    try:
+        avail = sorted(os.sched_getaffinity(0))
+    except Exception:
+        avail = list(range(nproc))
+    nproc = min(nproc, len(avail)) if pin else nproc
+    for k in avail[:nproc]:
+        cores.put(k)
+    have_taskset = pin and shutil.which("taskset") is not None
+
     def one(argv):
+        # each harness process serialises its own threads, so it is pinned to one core: hand-offs stay
+        # core-local (measured 2.7x faster than letting the kernel migrate the threads)
+        core = cores.get() if have_taskset else None
+        try:
+            return one_(argv if core is None else ["taskset", "-c", str(core)] + argv, argv)
+        finally:
+            if core is not None:
+                cores.put(core)
+
+    def one_(argv, orig):
         to = None
         if deadline is not None:
             to = max(5.0, deadline - time.time())
@@ -168,7 +190,7 @@ def run_jobs(jobs, deadline=None, nproc=None):
                     recs.append(json.loads(line))
                 except Exception:
                     pass
-        return (argv, rc, recs, err.decode("utf-8", "replace")[-3000:])
+        return (orig, rc, recs, err.decode("utf-8", "replace")[-3000:])
 
     with cf.ThreadPoolExecutor(max_workers=nproc) as ex:
         return list(ex.map(one, jobs))
